@@ -958,6 +958,96 @@ def stableCoords (collapse rev strandPlus : Bool) (nodeStart total plen ps pe : 
 GENERATORS["Coords"] = gen_coords
 
 
+# ---------------------------------------------------------------------------------------------------------
+# gfa.GFA.add_edge / remove_edge: which adjacency set of which endpoint receives (loses) which entry
+def _edge_entries(stmts, names, dirs, methods):
+    """`if <dir> == 0: self[<node>].<m_start>(<other>, <otherdir>, overlap) else: self[<node>].<m_end>(...)` statements ->
+    Lean `Entry` terms (owner is the second node?, side, neighbour is the second node?, stored side)"""
+    out = []
+    for st in stmts:
+        if not isinstance(st, ast.If):
+            continue
+        t = st.test
+        if not (isinstance(t, ast.Compare) and len(t.ops) == 1 and isinstance(t.ops[0], (ast.Eq, ast.NotEq)) and ast.unparse(t.left) in dirs
+                and isinstance(t.comparators[0], ast.Constant) and t.comparators[0].value in (0, 1)):
+            continue
+        d = dirs[ast.unparse(t.left)]
+        # Lean condition for "the test holds": side value false = 0
+        holds = ("(!%s)" % d) if (t.comparators[0].value == 0) == isinstance(t.ops[0], ast.Eq) else d
+
+        def call(body):
+            if len(body) != 1 or not (isinstance(body[0], ast.Expr) and isinstance(body[0].value, ast.Call)):
+                raise Untranslatable("edge dispatch: branch is not one call")
+            c = body[0].value
+            if not (isinstance(c.func, ast.Attribute) and c.func.attr in methods and len(c.args) == 3):
+                raise Untranslatable("edge dispatch: call %s" % ast.unparse(c)[:60])
+            recv = ast.unparse(c.func.value)
+            m = re.fullmatch(r"self(?:\.nodes)?\[(\w+)\]", recv)
+            if not m or m.group(1) not in names:
+                raise Untranslatable("edge dispatch: receiver %s" % recv)
+            a0, a1, a2 = (ast.unparse(a) for a in c.args)
+            if a0 not in names or a1 not in dirs or a2 != "overlap":
+                raise Untranslatable("edge dispatch: arguments %s" % ast.unparse(c)[:60])
+            return names[m.group(1)], methods[c.func.attr], names[a0], dirs[a1]
+        if not st.orelse:
+            raise Untranslatable("edge dispatch: if without else")
+        o1, s1, n1, ns1 = call(st.body)
+        o2, s2, n2, ns2 = call(st.orelse)
+        if o1 != o2 or n1 != n2 or ns1 != ns2:
+            raise Untranslatable("edge dispatch: the two branches address different nodes")
+        side = s1 if s1 == s2 else "(if %s then %s else %s)" % (holds, s1, s2)
+        out.append("⟨%s, %s, %s, %s⟩" % (o1, side, n1, ns1))
+    return out
+
+
+import re  # noqa: E402
+
+
+def gen_edges():
+    _, src = src_of("gaftools/gfa.py")
+    mod = ast.parse(src)
+    fn = find_func(mod, "add_edge", cls="GFA")
+    body = [st for st in fn.body if not isinstance(st, ast.Assert) and not (isinstance(st, ast.Expr) and isinstance(st.value, ast.Constant))]
+    if not body or ast.unparse(body[0]).replace("(", "").replace(")", "") != "node1_dir, node2_dir = E_DIR[node1_dir, node2_dir]":
+        raise Untranslatable("add_edge does not start with the E_DIR lookup: %s" % (ast.unparse(body[0]) if body else ""))
+    names = {"node1": "false", "node2": "true"}
+    dirs = {"node1_dir": "d1", "node2_dir": "d2"}
+    key = None
+    for st in body[1:]:
+        if isinstance(st, ast.If) and ast.unparse(st.test) == "tags" and len(st.body) == 1 and isinstance(st.body[0], ast.Assign):
+            tgt = st.body[0].targets[0]
+            if isinstance(tgt, ast.Subscript) and ast.unparse(tgt.value) == "self.edge_tags" and isinstance(tgt.slice, ast.Tuple) and len(tgt.slice.elts) == 4:
+                k = [ast.unparse(e) for e in tgt.slice.elts]
+                if k[0] in names and k[2] in names and k[1] in dirs and k[3] in dirs and ast.unparse(st.body[0].value) == "tags":
+                    key = "(%s, %s, %s, %s)" % (names[k[0]], dirs[k[1]], names[k[2]], dirs[k[3]])
+    if key is None:
+        raise Untranslatable("add_edge: edge_tags assignment not found")
+    add = _edge_entries(body[1:], names, dirs, {"add_from_start": "false", "add_from_end": "true"})
+    if len(add) != 2:
+        raise Untranslatable("add_edge: %d adjacency updates" % len(add))
+    fn = find_func(mod, "remove_edge", cls="GFA")
+    body = [st for st in fn.body if not (isinstance(st, ast.Expr) and isinstance(st.value, ast.Constant))]
+    if not body or ast.unparse(body[0]).replace("(", "").replace(")", "") != "n1, side1, n2, side2, overlap = edge":
+        raise Untranslatable("remove_edge does not start by unpacking the edge")
+    rem = _edge_entries(body[1:], {"n1": "false", "n2": "true"}, {"side1": "d1", "side2": "d2"}, {"remove_from_start": "false", "remove_from_end": "true"})
+    if len(rem) != 2:
+        raise Untranslatable("remove_edge: %d adjacency updates" % len(rem))
+    return ("/-! generated by harness/translate.py from gaftools/gfa.py : add_edge / remove_edge — do not edit -/\n"
+            "namespace Gaftools.Gen\n"
+            "/-- one adjacency update: the endpoint whose set changes (`true` = the second node), the side of that endpoint\n"
+            "    (`true` = end), the neighbour stored (`true` = the second node) and the side stored with it -/\n"
+            "structure Entry where\n  owner2 : Bool\n  side : Bool\n  nbr2 : Bool\n  nbrSide : Bool\nderiving DecidableEq, Repr\n\n"
+            "/-- `add_edge` after the `E_DIR` lookup gave `(d1, d2)`: the two adjacency entries it adds, in program order -/\n"
+            "def addEdgeEntries (d1 d2 : Bool) : List Entry := [%s]\n\n"
+            "/-- the key under which `add_edge` files the link's tags: (second node first?, side, second node?, side) -/\n"
+            "def addEdgeTagKey (d1 d2 : Bool) : Bool × Bool × Bool × Bool := %s\n\n"
+            "/-- `remove_edge((n1, side1, n2, side2, overlap))`: the two adjacency entries it removes, in program order -/\n"
+            "def removeEdgeEntries (d1 d2 : Bool) : List Entry := [%s]\nend Gaftools.Gen\n" % (", ".join(add), key, ", ".join(rem)))
+
+
+GENERATORS["Edges"] = gen_edges
+
+
 def regenerate(only=None):
     """returns {name: {"tie": "A"|"B-only", "detail": str, "changed": bool}}"""
     os.makedirs(GEN, exist_ok=True)
@@ -983,6 +1073,20 @@ def regenerate(only=None):
 
 
 FALLBACK = {
+    "Edges": """/-! FALLBACK (source construct outside the translator's subset): add_edge / remove_edge as modelled by hand -/
+namespace Gaftools.Gen
+structure Entry where
+  owner2 : Bool
+  side : Bool
+  nbr2 : Bool
+  nbrSide : Bool
+deriving DecidableEq, Repr
+
+def addEdgeEntries (d1 d2 : Bool) : List Entry := [⟨false, d1, true, d2⟩, ⟨true, d2, false, d1⟩]
+def addEdgeTagKey (d1 d2 : Bool) : Bool × Bool × Bool × Bool := (false, d1, true, d2)
+def removeEdgeEntries (d1 d2 : Bool) : List Entry := [⟨false, d1, true, d2⟩, ⟨true, d2, false, d1⟩]
+end Gaftools.Gen
+""",
     "Coords": """/-! FALLBACK (source construct outside the translator's subset): the coordinate arithmetic as modelled by hand -/
 namespace Gaftools.Gen
 def unstableCoords (minus split : Bool) (plen ps pe newTotal newStart : Int) : Int × Int × Int :=
